@@ -491,3 +491,85 @@ def s18b_clv_zero_range(ctx):
         r.violate('clv|shape', 'clv() has %d constant-zero and %d formula paths (expected 1 and 1)' % (nz, nd), b.file, b.line)
     r.floor('clv paths', 2, nz + nd)
     return r
+
+
+def s18c_validate_boxes(ctx):
+    """OHLCV::validate decided on boxes of candles by interval abstract interpretation of the generic default method, the five required
+    accessors standing for arbitrary values of the box."""
+    from absint import St, Budget, INF
+    from absexec import Exec
+    f = ctx.facts('default')
+    r = RuleResult('S18c', 'OHLCV::validate rejects every candle with a non-positive, NaN or infinite price or a negative volume (for all values of the '
+                           'other fields), rejects unordered boxes and accepts ordered positive finite boxes with non-negative or NaN volume')
+    bid = 'G:core::ohlcv::OHLCV::validate'
+    if bid not in f.bodies:
+        raise Broken('OHLCV::validate not found')
+    FM = 1.7976931348623157e308
+    TINY = 5e-324
+    ANY = ('float', -INF, INF, True)
+    acc = ('open', 'high', 'low', 'close', 'volume')
+
+    def run(box):
+        ex = Exec(f)
+        st = St()
+        b = ex.body(bid)
+        ex.abstract_trait_fns = {'core::ohlcv::OHLCV::' + a: box.get(a, ANY) for a in acc}
+        try:
+            outs = ex.run_fn(b, st, [ex.top_of(st, b.locals[1]['tyj'])], [bid])
+        except Budget:
+            return None, ex
+        vals = set()
+        for s_, v in outs:
+            if v[0] == 'bool':
+                bv = s_.bv.get(v[1])
+                vals.add(bv)
+            else:
+                vals.add(None)
+        return vals, ex
+
+    cases = []
+    for p in ('open', 'high', 'low', 'close'):
+        if p in ('high', 'close'):
+            # a non-positive high/close is rejected either by its own test or through the ordering clause by a positive low; the cases
+            # low <= 0 and low = NaN are the (unconditional) boxes of `low` below, so the three together cover every candle
+            cases.append(('%s<=0,low>0' % p, {p: ('float', -INF, 0.0, False), 'low': ('float', TINY, INF, False)}, False))
+        else:
+            cases.append(('%s<=0' % p, {p: ('float', -INF, 0.0, False)}, False))
+        cases.append(('%s=NaN' % p, {p: ('nan',)}, False))
+        cases.append(('%s=+inf' % p, {p: ('float', INF, INF, False)}, False))
+    cases.append(('volume<0', {'volume': ('float', -INF, -TINY, False)}, False))
+    good = {'open': ('float', 2.0, 3.0, False), 'close': ('float', 2.0, 3.0, False), 'high': ('float', 4.0, 5.0, False), 'low': ('float', 1.0, 1.5, False)}
+    cases.append(('close>high', dict(good, close=('float', 6.0, 7.0, False), volume=('float', 0.0, 10.0, False)), False))
+    cases.append(('close<low', dict(good, close=('float', 0.25, 0.5, False), volume=('float', 0.0, 10.0, False)), False))
+    cases.append(('high<low', dict(good, high=('float', 0.5, 0.75, False), close=('float', 0.6, 0.7, False), volume=('float', 0.0, 10.0, False)), False))
+    cases.append(('ordered-positive-finite,volume>=0', dict(good, volume=('float', 0.0, FM, False)), True))
+    cases.append(('ordered-positive-finite,volume=NaN', dict(good, volume=('nan',)), True))
+    cases.append(('huge-but-finite', {'open': ('float', FM, FM, False), 'close': ('float', FM, FM, False), 'high': ('float', FM, FM, False), 'low': ('float', TINY, TINY, False),
+                                      'volume': ('float', 0.0, 0.0, False)}, True))
+    b0 = f.bodies[bid]
+    for label, box, want in cases:
+        box2 = {}
+        nan_of = None
+        for k, v in box.items():
+            if v == ('nan',):
+                nan_of = k
+                box2[k] = None
+            else:
+                box2[k] = v
+        key = 'validate|' + label
+        r.inst(key)
+        if nan_of:
+            box2[nan_of] = ('float', INF, -INF, True)       # certainly NaN
+            vals, ex = run(box2)
+        else:
+            vals, ex = run(box2)
+        if vals is None:
+            r.violate(key + '|budget', 'analysis budget exceeded', b0['file'], b0['line'])
+            continue
+        if vals != {want}:
+            r.violate(key + '|' + ('accepts' if want is False else 'rejects'), 'OHLCV::validate can return %s for candles with %s (expected %s for every such candle)' % (
+                sorted(str(x) for x in vals - {want}), label, want), b0['file'], b0['line'])
+        else:
+            r.sample({'box': label, 'validate': want})
+    r.floor('validate boxes', 18, len(cases))
+    return r
